@@ -157,7 +157,10 @@ class GEXTest:
                     if bits >= smallest_modulus > 0:
                         break
 
-                    smallest_modulus, reconnect_failed = GEXTest._send_init(out, s, kex_group, kex, gex_alg, bits, bits, bits)
+                    # A probe that fails (or is answered with a larger modulus) must not erase a smaller modulus the server already handed out.
+                    modulus, reconnect_failed = GEXTest._send_init(out, s, kex_group, kex, gex_alg, bits, bits, bits)
+                    if modulus > 0 and (smallest_modulus <= 0 or modulus < smallest_modulus):
+                        smallest_modulus = modulus
 
                 # If the smallest modulus is 2048 and the server is OpenSSH, then we may have triggered the fallback mechanism, which tends to happen in testing scenarios such as this but not in most real-world conditions (see X).  To better test this condition, we will do an additional check to see if the server supports sizes between 2048 and 4096, and consider this the definitive result.
                 openssh_test_updated = False
@@ -226,8 +229,8 @@ class GEXTest:
                 out.d('GEXTest._send_init(%s, %u, %u, %u): reconnection failed.' % (gex_alg, min_bits, pref_bits, max_bits), write_now=True)
             else:
                 kex_group.send_init_gex(s, min_bits, pref_bits, max_bits)
+                smallest_modulus = kex_group.get_dh_modulus_size()  # The group has been received at this point; whatever reply follows does not change its size.
                 kex_group.recv_reply(s, False)
-                smallest_modulus = kex_group.get_dh_modulus_size()
                 out.d('GEXTest._send_init(%s, %u, %u, %u): received modulus size: %d' % (gex_alg, min_bits, pref_bits, max_bits, smallest_modulus), write_now=True)
         except KexDHException as e:
             out.d('GEXTest._send_init(%s, %u, %u, %u): exception when performing DH group exchange init: %s' % (gex_alg, min_bits, pref_bits, max_bits, str(e)), write_now=True)
